@@ -357,6 +357,7 @@ fn table_random(rng: &mut Rng, count: usize) -> Vec<(Vec<u64>, Vec<(u64, u64)>, 
         ranges.push((a.min(b), a.max(b).saturating_add(1)));
         let len = rng.range(6, 50) as usize;
         let mut clock = 0u64;
+        let mut saved_clock = 0u64;
         let mut ops = Vec::new();
         let deep_ok = i % 4 == 0; // a quarter of the sequences end with a rollback below the window
         for _ in 0..len {
@@ -369,12 +370,14 @@ fn table_random(rng: &mut Rng, count: usize) -> Vec<(Vec<u64>, Vec<(u64, u64)>, 
                     clock += *rng.pick(&[0u64, 0, 1, 1, W]);
                     ops.push(TOp::Unset(clock, *rng.pick(&keys)));
                 }
-                12..=14 => ops.push(TOp::Commit(clock + 1)),
-                15 => ops.push(TOp::Clear),
-                16 => ops.push(TOp::Reopen),
+                12..=14 => { ops.push(TOp::Commit(clock + 1)); saved_clock = clock; }
+                // clear / reopen drop the uncommitted blocks: the table is back at the height of
+                // its last commit (a reorg target above it would be refused by the engine)
+                15 => { ops.push(TOp::Clear); clock = saved_clock; }
+                16 => { ops.push(TOp::Reopen); clock = saved_clock; }
                 17 => {
                     if rng.chance(1, 4) { ops.push(TOp::Set(clock.saturating_sub(1), *rng.pick(&keys), 1)); }
-                    else { ops.push(TOp::Commit(clock + 1)); }
+                    else { ops.push(TOp::Commit(clock + 1)); saved_clock = clock; }
                 }
                 _ => {
                     let back = *rng.pick(&[0u64, 1, 2, 3, W - 1, W, W]);
@@ -383,6 +386,7 @@ fn table_random(rng: &mut Rng, count: usize) -> Vec<(Vec<u64>, Vec<(u64, u64)>, 
                     // clock (newest block the table was told about) does not go back for the window,
                     // but later stamps restart from n
                     clock = n.max(clock.saturating_sub(back));
+                    saved_clock = clock;
                 }
             }
         }
